@@ -6,6 +6,15 @@
      cy  <tool l|m> <fx 0|1> <lt 0|1> <tree...>   -> events of the generated code
      py  <tool l|m> <lt 0|1> <tree...>            -> events of CPython
      chk <tool> <fx> <lt> <tree...>               -> "<well_nested> <nests_as> <size> <starts> <ends> <clean> <started>"
+   code-generation level (M_TraceGen):
+     program  :  P func* ;        func = F <kind f0|f1|g00|g10|g11> <tflag 0|1> block
+                 block = stmt* .   stmt = e | x | r | y | i block block | l block block | t block block | n block block
+     oracles  :  O inst* ;        inst = I choice* .     choice = <kids>:<go 0|1>:<exc - | c | u>
+     tree     :  N <f> <inst> <k> node* .
+     gw  <tool> <fx> <lt> <guard a|s> <program> <oracles> <tree>
+            -> "<prog_ok> <complete> <to_node ok> <well_nested> | events"
+     gfun <guard a|s> F <kind> <tflag> block   -> "<is_term> <clean> <func_ok fx=0> | epilogue tokens"
+     gseg <fx> <guard> F ... I choice* . -> tokens of the whole run, segments separated by /
    events are printed as  <kind><f>  (line events  L<f>:<line>) separated by commas *)
 let skind_of = function
   | "c" -> SCall | "g" -> SGenStart | "r" -> SResume | "t" -> SThrow | "u" -> SCloseUnstarted
@@ -36,7 +45,110 @@ let show_ev (k, f) = match k with
   | _ -> kname k ^ string_of_int (int_of_nat f)
 let show evs = if evs = [] then "-" else String.concat "," (List.map show_ev evs)
 
-let handle = function
+
+(* ---------- code-generation level ---------- *)
+let fuel = nat_of_int 200000
+let kind_of = function
+  | "f0" -> KFunc false | "f1" -> KFunc true
+  | "g00" -> KGen (false, false) | "g10" -> KGen (true, false) | "g11" -> KGen (true, true)
+  | "g01" -> KGen (false, true) | _ -> failwith "kind"
+let guard_of = function "a" -> all_true | "s" -> g_not_inlined | _ -> failwith "guard"
+
+let rec p_block toks = match toks with
+  | "." :: rest -> (BNil, rest)
+  | _ -> let (s, r1) = p_stmt toks in let (b, r2) = p_block r1 in (BCons (s, b), r2)
+and p_stmt toks = match toks with
+  | "e" :: rest -> (SExpr, rest)
+  | "x" :: rest -> (SRaise, rest)
+  | "r" :: rest -> (SReturn, rest)
+  | "y" :: rest -> (SYield, rest)
+  | "i" :: rest -> let (a, r1) = p_block rest in let (b, r2) = p_block r1 in (SIf (a, b), r2)
+  | "l" :: rest -> let (a, r1) = p_block rest in let (b, r2) = p_block r1 in (SLoop (a, b), r2)
+  | "t" :: rest -> let (a, r1) = p_block rest in let (b, r2) = p_block r1 in (STry (a, b), r2)
+  | "n" :: rest -> let (a, r1) = p_block rest in let (b, r2) = p_block r1 in (SFin (a, b), r2)
+  | _ -> failwith "stmt"
+
+let p_func toks = match toks with
+  | "F" :: k :: tf :: rest ->
+      let (b, r) = p_block rest in ({ f_kind = kind_of k; f_body = b; f_tflag = bool_of_string tf }, r)
+  | _ -> failwith "func"
+
+let p_prog toks = match toks with
+  | "P" :: rest ->
+      let rec go acc t = match t with
+        | ";" :: r -> (List.rev acc, r)
+        | _ -> let (f, r) = p_func t in go (f :: acc) r in
+      go [] rest
+  | _ -> failwith "prog"
+
+let p_choice w = match String.split_on_char ':' w with
+  | [k; g; e] ->
+      { c_kids = nat_of_int (int_of_string k); c_go = bool_of_string g;
+        c_exc = (match e with "-" -> None | "c" -> Some true | "u" -> Some false | _ -> failwith "exc") }
+  | _ -> failwith "choice"
+
+let p_inst toks = match toks with
+  | "I" :: rest ->
+      let rec go acc t = match t with
+        | "." :: r -> (List.rev acc, r)
+        | w :: r -> go (p_choice w :: acc) r
+        | [] -> failwith "inst" in
+      go [] rest
+  | _ -> failwith "inst"
+
+let p_oracles toks = match toks with
+  | "O" :: rest ->
+      let rec go acc t = match t with
+        | ";" :: r -> (Array.of_list (List.rev acc), r)
+        | _ -> let (i, r) = p_inst t in go (i :: acc) r in
+      go [] rest
+  | _ -> failwith "oracles"
+
+let rec p_xt orc toks = match toks with
+  | "N" :: f :: inst :: k :: rest ->
+      let (kids, r) = p_xts orc rest in
+      (XT (nat_of_int (int_of_string f), orc.(int_of_string inst), fuel, nat_of_int (int_of_string k), kids), r)
+  | _ -> failwith "xt"
+and p_xts orc toks = match toks with
+  | "." :: rest -> (XNil, rest)
+  | _ -> let (x, r1) = p_xt orc toks in let (xs, r2) = p_xts orc r1 in (XCons (x, xs), r2)
+
+let tname = function
+  | TStart SCall -> "Sc" | TStart SGenStart -> "Sg" | TStart SResume -> "Sr" | TStart SThrow -> "St"
+  | TStart SCloseUnstarted -> "Su" | TKid -> "K" | TLine -> "L" | TRet -> "R" | TYield -> "Y" | TUnwind -> "U"
+let ename = function
+  | EMark -> "|" | EFall -> "R" | EGotoRet -> "goto_ret" | EErrLabel -> "ERR:" | EIfExc -> "ifexc"
+  | EExc -> "X" | EUnw -> "U"
+
+let handle_gen = function
+  | "gw" :: t :: fx :: lt :: g :: toks ->
+      let (prog, r1) = p_prog toks in
+      let (orc, r2) = p_oracles r1 in
+      let (x, r3) = p_xt orc r2 in
+      if r3 <> [] then failwith "trailing" else
+      let fx = bool_of_string fx and g = guard_of g in
+      let w = word g fx (tool_of t) (bool_of_string lt) prog x in
+      Some (Printf.sprintf "%s %s %s %s | %s"
+        (string_of_bool (prog_ok fx prog)) (string_of_bool (complete g fx prog x))
+        (string_of_bool (match to_node g fx prog x with Some _ -> true | None -> false))
+        (string_of_bool (well_nested w)) (show w))
+  | "gfun" :: g :: toks ->
+      let (f, r) = p_func toks in
+      if r <> [] then failwith "trailing" else
+      Some (Printf.sprintf "%s %s %s | %s"
+        (string_of_bool (is_term f.f_body)) (string_of_bool (clean_b O f.f_body))
+        (string_of_bool (func_ok false f))
+        (String.concat " " (List.map ename (epilogue (guard_of g) f.f_kind f.f_tflag))))
+  | "gseg" :: fx :: g :: toks ->
+      let (f, r1) = p_func toks in
+      let (o, r2) = p_inst r1 in
+      if r2 <> [] then failwith "trailing" else
+      let (tk, out) = run (guard_of g) (bool_of_string fx) f fuel o in
+      Some (String.concat " " (List.map (fun t -> match t with TYield -> "Y /" | _ -> tname t) tk)
+            ^ (match out with ONormal -> " =n" | OReturn _ -> " =r" | ORaise _ -> " =x" | OAbandon -> " =a" | OStuck -> " =s"))
+  | _ -> None
+
+let handle_old = function
   | "cy" :: t :: fx :: lt :: toks ->
       show (ev_cy (tool_of t) (bool_of_string fx) (bool_of_string lt) (tree toks))
   | "py" :: t :: lt :: toks -> show (ev_py (tool_of t) (bool_of_string lt) (tree toks))
@@ -48,5 +160,7 @@ let handle = function
         (int_of_nat (size n)) (int_of_nat (count_class CStart evs)) (int_of_nat (count_class CEnd evs))
         (string_of_bool (clean n)) (string_of_bool (started n))
   | _ -> "!ERR badcmd"
+
+let handle ws = match handle_gen ws with Some r -> r | None -> handle_old ws
 
 let () = main_loop handle
